@@ -178,8 +178,9 @@ impl<S: Store> RateLimiter<S> {
             // interval), also when the tolerance is zero (max_burst = 1)
             let lifetime_pad_ns = delay_variation_tolerance_ns.max(emission_interval_ns);
 
-            if allowed {
-                // Update the store with new TAT
+            if allowed && quantity > 0 {
+                // Update the store with new TAT (a zero-quantity probe consumes nothing
+                // and therefore writes nothing)
                 let ttl = Duration::from_nanos(
                     new_tat
                         .saturating_sub(now_ns)
